@@ -189,6 +189,7 @@ func ruleBC5(c *Ctx) {
 
 func ruleSibling7(c *Ctx) {
 	c.R.Rule("SIBLING-7", 2, "neither dispatch loop has an iteration bound other than OP_RETURN (a bound makes long programs fail in one loop only)")
+	bounded := map[string]bool{}
 	for _, fn := range []string{"switchThreading", "callThreading"} {
 		fd := c.FuncDecl("vm", fn)
 		if fd == nil {
@@ -209,9 +210,44 @@ func ruleSibling7(c *Ctx) {
 		if loop.Cond == nil {
 			c.R.OK("vm."+fn, "dispatch loop unbounded", loop.Pos(), "for { ... } ends only at OP_RETURN")
 		} else {
+			bounded[fn] = true
 			c.R.Bad("vm."+fn, "dispatch loop unbounded", loop.Pos(), "loop condition %s bounds the number of executed instructions: programs longer than the bound fail in this loop but not in the other", src(loop.Cond))
 		}
 	}
+	// whichever loop the API actually runs must be an unbounded one: every function value stored into VM.interp
+	// (constructor literal or assignment) is checked, so that the recorded finding about the generated loop stays confined
+	// to code no caller can reach
+	installed := 0
+	for _, f := range c.Mod["vm"].Syntax {
+		ast.Inspect(f, func(x ast.Node) bool {
+			var val ast.Expr
+			switch n := x.(type) {
+			case *ast.KeyValueExpr:
+				if id, ok := n.Key.(*ast.Ident); ok && id.Name == "interp" {
+					if fo, ok := c.objOf(id).(*types.Var); ok && fo.IsField() {
+						val = n.Value
+					}
+				}
+			case *ast.AssignStmt:
+				for i, l := range n.Lhs {
+					if se, ok := unparen(l).(*ast.SelectorExpr); ok && se.Sel.Name == "interp" && i < len(n.Rhs) && strings.HasSuffix(typeStr(c.typeOf(se.X)), "vm.VM") {
+						val = n.Rhs[i]
+					}
+				}
+			}
+			if val == nil {
+				return true
+			}
+			installed++
+			name := "?"
+			if o, ok := c.objOf(val).(*types.Func); ok {
+				name = o.Name()
+			}
+			c.R.Check(name != "?" && !bounded[name] && (name == "switchThreading" || name == "callThreading"), "vm.NewVM", "installed dispatch loop "+name+" is unbounded", val.Pos(), "the loop every evaluation runs ends only at OP_RETURN", "the VM is given the dispatch loop "+name+", which stops after a fixed number of instructions (or is not one of the two checked loops): programs longer than the bound fail on the default back end only")
+			return true
+		})
+	}
+	c.R.Check(installed >= 1, "vm.NewVM", "a dispatch loop is installed", token.NoPos, "VM.interp is set by the constructor", "no store into VM.interp found")
 }
 
 // fieldsAssigned lists the receiver fields assigned in body (v.f = ...).
